@@ -124,6 +124,7 @@ class C19(engine.Property):
         "construct-with-laws-in-use",
         "set-rule-attempt",
         "reassign-same",
+        "falsy-universe-released",
     ]
 
     def make_config(self, rng):
@@ -135,6 +136,18 @@ class C19(engine.Property):
             "max_l": 6,
             "p_none": rng.choice([0.1, 0.2, 0.35]),
             "p_whitelist": rng.choice([0.0, 0.3, 0.6]),
+            # FalsyUniverse: a container-like subclass, falsy while it has no members
+            "universe_classes": rng.choice(
+                [
+                    ["Universe"],
+                    ["Universe", "SubUniverse"],
+                    ["Universe", "FalsyUniverse"],
+                    ["FalsyUniverse"],
+                    # equal-but-distinct universes: the property is worded with `is`
+                    ["EqUniverse"],
+                    ["EqUniverse", "Universe"],
+                ]
+            ),
             "weights": gen.swarm_weights(
                 rng,
                 ["set_laws", "set_applies", "mk_universe", "mk_universe_laws", "mk_laws", "set_rule"],
@@ -166,7 +179,9 @@ class C19(engine.Property):
         if st.pending is None:
             st.pending = []
             for _ in range(cfg["nu"]):
-                st.pending.append({"op": "mk_universe", "new": st.namer.new("u")})
+                st.pending.append(
+                    {"op": "mk_universe", "new": st.namer.new("u"), "cls": rng.choice(cfg["universe_classes"])}
+                )
             for _ in range(cfg["nl"]):
                 st.pending.append(self._mk_laws(rng, cfg, st))
         if st.pending:
@@ -184,11 +199,12 @@ class C19(engine.Property):
                 u = None if rng.random() < cfg["p_none"] else rng.choice(us)
                 return {"op": "set_applies", "L": L, "u": u}
             if kind == "mk_universe" and len(us) < cfg["max_u"]:
-                return {"op": "mk_universe", "new": st.namer.new("u")}
+                return {"op": "mk_universe", "new": st.namer.new("u"), "cls": rng.choice(cfg["universe_classes"])}
             if kind == "mk_universe_laws" and len(us) < cfg["max_u"] and ls:
                 return {
                     "op": "mk_universe",
                     "new": st.namer.new("u"),
+                    "cls": rng.choice(cfg["universe_classes"]),
                     "laws": rng.choice(ls),
                 }
             if kind == "mk_laws" and len(ls) < cfg["max_l"]:
@@ -222,6 +238,8 @@ class C19(engine.Property):
                     s["probe:assign-law-set-in-use-elsewhere"] += 1
         elif k == "set_applies" and op["L"] in snap:
             cur = snap[op["L"]].get("applies_to")
+            if cur is not None and cur != op["u"] and snap.get(cur, {}).get("cls") == "FalsyUniverse":
+                s["probe:falsy-universe-released"] += 1
             if op["u"] is None:
                 s["probe:applies_to-set-None"] += 1
             elif cur is not None and cur != op["u"]:
